@@ -2141,7 +2141,7 @@ def c20_correspond(run, rng, tier):
                     'and every run, including the stream of debugger messages, compared with the model evaluator interpreting the real debugger.lisp',
             'samples': progs[:2] + progs[30:32], 'disagreements': diffs, 'oracle_failures': failures, 'distribution': dist, 'findings_seen': findings_seen}
 
-spec('C20', correspond=c20_correspond, replay=generic_replay, modules=['C20', 'C20b'],
+spec('C20', correspond=c20_correspond, replay=generic_replay, modules=['C20', 'C20b', 'C20c'],
      search=lambda run, rng, d: c20_correspond(run, random.Random(rng.random()), 'quick')['oracle_failures'],
      trusted=['the evaluator model is tied to eval/mod.rs by differential execution', 'debugger.lisp is interpreted by the model evaluator (not re-modelled)', 'the correspondence check (hook H3 answers `receive`)'],
      assumptions=['partial: the agreement of debug-eval with eval is established by differential execution (real and model), the theorems cover the natives the stepping evaluator is built from and the detached case',
